@@ -41,6 +41,10 @@ pub enum SocketType {
   Pull,
 }
 
+/// Largest number of frames `send_multipart` accepts for one message (the 255-frame capacity of
+/// `FrameBatch` minus room for the envelope frames a pattern may add).
+pub const MAX_MULTIPART_FRAMES: usize = 250;
+
 /// The public handle for interacting with an rzmq socket.
 /// This struct provides the user-facing API for socket operations.
 /// Handles are cloneable (`Arc`-based), allowing them to be shared across tasks.
@@ -131,6 +135,15 @@ impl Socket {
   ///
   /// The `frames` Vec should have MsgFlags::MORE set correctly on all but the last Msg.
   pub async fn send_multipart(&self, frames: Vec<Msg>) -> Result<(), ZmqError> {
+    // A FrameBatch holds at most 255 frames and the socket patterns add envelope frames of
+    // their own (delimiter, routing prefix): refuse longer messages instead of panicking.
+    if frames.len() > MAX_MULTIPART_FRAMES {
+      return Err(ZmqError::InvalidMessage(format!(
+        "multipart message has {} frames; at most {} are supported",
+        frames.len(),
+        MAX_MULTIPART_FRAMES
+      )));
+    }
     self.inner.send_multipart(FrameBatch::from(frames)).await
   }
 
